@@ -1499,6 +1499,13 @@ func (p *Parser) parseIndex(leftNode ast.Node) ast.Node {
 	if !p.peekTokenIs(token.COLON) {
 		p.nextToken() // move to the first index
 		firstIndex = p.parseExpression(LOWEST)
+		if firstIndex == nil {
+			// e.g. a newline directly after "[": there is no index expression
+			if p.err == nil {
+				p.setTokenError(p.curToken, "invalid index expression")
+			}
+			return nil
+		}
 		if p.peekTokenIs(token.RBRACKET) {
 			p.nextToken() // move to the "]"
 			return ast.NewIndex(indexToken, left, firstIndex)
@@ -1512,6 +1519,12 @@ func (p *Parser) parseIndex(leftNode ast.Node) ast.Node {
 		}
 		p.nextToken() // move to the second index
 		secondIndex = p.parseExpression(LOWEST)
+		if secondIndex == nil {
+			if p.err == nil {
+				p.setTokenError(p.curToken, "invalid index expression")
+			}
+			return nil
+		}
 	}
 	if !p.expectPeek("an index expression", token.RBRACKET) {
 		return nil
@@ -1687,6 +1700,13 @@ func (p *Parser) parseMapOrSet() ast.Node {
 		p.nextToken() // move to the ":"
 		p.nextToken() // move to the first value
 		firstValue := p.parseExpression(LOWEST)
+		if firstKey == nil || firstValue == nil {
+			// e.g. a newline directly after ":": there is no value expression
+			if p.err == nil {
+				p.setTokenError(p.curToken, "invalid syntax in map expression")
+			}
+			return nil
+		}
 		pairs := map[ast.Expression]ast.Expression{firstKey: firstValue}
 		for !p.peekTokenIs(token.RBRACE) {
 			if p.peekTokenIs(token.NEWLINE) {
